@@ -222,10 +222,16 @@ class PythonRegex(regex.Regex):
     def _preprocess_brackets_content(self, bracket_content):
         bracket_content_temp = []
         previous_is_valid_for_range = False
+        range_end = -1
         for i, symbol in enumerate(bracket_content):
             # We have a range
             if symbol == "-" and not self._should_escape_next_symbol(bracket_content_temp):
-                if not previous_is_valid_for_range or i == len(bracket_content) - 1:
+                if i == range_end:
+                    # The dash is the upper end of the range just inserted: it
+                    # neither starts nor announces another range
+                    bracket_content_temp.append("-")
+                    previous_is_valid_for_range = False
+                elif not previous_is_valid_for_range or i == len(bracket_content) - 1:
                     # False alarm, no range
                     bracket_content_temp.append("-")
                     previous_is_valid_for_range = True
@@ -240,6 +246,7 @@ class PythonRegex(regex.Regex):
                         else:
                             bracket_content_temp.append(next_char)
                     previous_is_valid_for_range = False
+                    range_end = i + 1
             else:
                 if self._should_escape_next_symbol(bracket_content_temp):
                     bracket_content_temp[-1] += symbol
